@@ -32,6 +32,8 @@ from liquid.token import TOKEN_TRUE
 from liquid.token import TOKEN_WORD
 
 from .path import Path
+from .path import _is_shorthand
+from .path import _quote
 
 if TYPE_CHECKING:
     from liquid import Environment
@@ -349,6 +351,12 @@ class Identifier(str):
     ) -> None:
         super().__init__()
         self.token: Token
+
+    def __str__(self) -> str:
+        # The identifier as it is written in source text. Bracket notation is the only
+        # way to write a name that is not a plain word.
+        word = super().__str__()
+        return word if _is_shorthand(word) else f"[{_quote(word)}]"
 
     def __eq__(self, value: object) -> bool:
         return super().__eq__(value)
